@@ -212,6 +212,8 @@ def correspond(ctx, corr, model_ok):
     corr.count('AwaitableRSocket collector at a credit-window boundary', 48)
     corr.oracle_failures.extend(reconnect_wire_oracle())
     corr.count('reconnecting client with local producers in flight: wire of the new connection', 18)
+    corr.oracle_failures.extend(failing_source_oracle())
+    corr.count('responder whose library source fails mid-stream, with and without a delay between messages', 36)
     from harness.props import c20
     corr.oracle_failures.extend(c20.take_oracle())
     corr.count('Rx stream requester behind take(k): frames written after the terminal frame was received', 66)
@@ -238,6 +240,7 @@ def search(ctx, budget):
         found.extend(gated_oracle())
         found.extend(collector_oracle())
         found.extend(reconnect_wire_oracle())
+        found.extend(failing_source_oracle())
         from harness.props import c20
         found.extend(c20.take_oracle())
     return found
@@ -259,6 +262,8 @@ def replay(obj):
         return bool(collector_oracle())
     if 'reconnect_wire_case' in case:
         return bool(reconnect_wire_oracle())
+    if 'failing_source_case' in case:
+        return bool(failing_source_oracle())
     if 'rx_case' in case:
         from harness.props import c20
         return bool(c20.oracle(c20.run_case(case['rx_case'])))
@@ -532,4 +537,87 @@ def reconnect_wire_oracle():
                 if bad:
                     out.append({'what': 'illegal frames on the connection after a reconnect: ' + '; '.join(bad[:3]),
                                 'reconnect_wire_case': [kind, source, cause], 'first_frames': repr(r['new'][:4])[:300]})
+    return out
+
+
+# ---------------------------------------------------------------------------------------------
+# a responder whose library source fails after some elements, with and without a delay between messages (the producer then runs
+# ahead of the feeder): once ERROR is on the wire nothing more is written on that stream
+
+def run_failing_source(source, channel, delay_ms, fail_after, lenreq):
+    import asyncio
+    from datetime import timedelta
+    from harness import sim, frames as FR
+    from rsocket.rsocket_server import RSocketServer
+    from rsocket.request_handler import BaseRequestHandler
+    from rsocket.payload import Payload
+    from rsocket.streams.stream_from_generator import StreamFromGenerator
+    from rsocket.streams.stream_from_async_generator import StreamFromAsyncGenerator
+    from reactivestreams.subscriber import DefaultSubscriber
+    loop = sim.new_loop()
+    sim.patch_clock(loop)
+    T = sim.make_transport_class()
+    t = T(lenreq=lenreq)
+    delay = timedelta(milliseconds=delay_ms)
+
+    def make():
+        if source == 'gen':
+            def g():
+                for i in range(fail_after):
+                    yield Payload(b'e%d' % i), False
+                raise RuntimeError('source failed')
+            return StreamFromGenerator(g, delay_between_messages=delay)
+
+        async def ag():
+            for i in range(fail_after):
+                yield Payload(b'e%d' % i), False
+            raise RuntimeError('source failed')
+        return StreamFromAsyncGenerator(ag, delay_between_messages=delay)
+
+    class H(BaseRequestHandler):
+        async def request_stream(self, payload):
+            return make()
+
+        async def request_channel(self, payload):
+            return make(), DefaultSubscriber()
+    box = {}
+    try:
+        loop.run(lambda: box.setdefault('s', RSocketServer(t, handler_factory=H)))
+        loop.settle()
+        fr = {'t': 'RequestChannel' if channel else 'RequestStream', 'sid': 1, 'ign': False, 'follows': False, 'n': 0x7FFFFFFF,
+              'md': b'', 'd': b'x'}
+        if channel:
+            fr['complete'] = False
+        t.inject_frame(FR.build(fr).serialize())
+        loop.settle()
+        loop.run_until(loop.time() + 2.0)
+        loop.settle()
+        return [sim.parse_sent(b) for b in t.sent]
+    finally:
+        loop.finish()
+
+
+def failing_source_oracle():
+    out = []
+    for source in ('gen', 'agen'):
+        for channel in (False, True):
+            for delay_ms in (0, 5, 50):
+                for fail_after in (0, 1, 3):
+                    wire = [f for f in run_failing_source(source, channel, delay_ms, fail_after, True) if f.get('sid') == 1]
+                    bad = None
+                    errs = [i for i, f in enumerate(wire) if f['t'] == 'Error']
+                    if len(errs) != 1:
+                        bad = '%d ERROR frames for a source that failed once' % len(errs)
+                    elif wire[errs[0] + 1:]:
+                        bad = 'frames after its own ERROR: %s' % [(f['t'], bytes(f.get('d') or b'')) for f in wire[errs[0] + 1:]][:4]
+                    else:
+                        # (elements the source had yielded but the feeder had not yet written are dropped by the library when
+                        # the source fails: what IS written must be the yielded elements in order, none twice)
+                        before = [bytes(f.get('d') or b'') for f in wire[:errs[0]] if f['t'] == 'Payload']
+                        if before != [b'e%d' % i for i in range(len(before))] or len(before) > fail_after:
+                            bad = 'elements before the ERROR: %s' % before
+                    if bad:
+                        out.append({'what': 'responder with a failing %s source (%s, %d ms between messages, fails after %d): %s' %
+                                            (source, 'channel' if channel else 'stream', delay_ms, fail_after, bad),
+                                    'failing_source_case': [source, channel, delay_ms, fail_after]})
     return out
